@@ -4,6 +4,7 @@
 From Coq Require Import List ZArith Bool.
 Import ListNotations.
 From V Require Import Model.SyncListConc Proofs.SyncListConc Proofs.SyncListTop.
+From V Require Lib.Enc Run.C11 Proofs.SyncListJudgeTop.
 Local Open Scope Z_scope.
 
 Theorem c11_init_invariant : forall n, Inv (init n).
@@ -67,3 +68,12 @@ Theorem c11_pop_busy_was_overtaken : forall c i h nx, Inv c -> nth_error (ths c)
   head (sh c) <> h -> (h < head (sh c))%nat.
 Proof. exact pop_busy_was_overtaken. Qed.
 Print Assumptions c11_pop_busy_was_overtaken.
+
+(* Refinement of the specification-side history judge (Run/C11.v, sub 2 — the executable reading of the property text that
+   the check applies to the real implementation's traces): on every well-formed case the judge accepts the run of the
+   proved step model (Run/C11.v, sub 0, incl. the run-level PopWait loops).  [wf_case] (Run/C11.v): documented op codes,
+   non-negative schedule entries, and no call still in flight when the completion tail of the schedule is over. *)
+Theorem c11_judge_accepts_model : forall args, V.Run.C11.wf_case args = true ->
+  V.Run.C11.judge (V.Lib.Enc.put_list args ++ V.Lib.Enc.put_list (V.Run.C11.run_case args)) = [1].
+Proof. exact V.Proofs.SyncListJudgeTop.judge_accepts_model. Qed.
+Print Assumptions c11_judge_accepts_model.
